@@ -265,4 +265,193 @@ theorem tp1_claimant {cfg : Cfg} {n : Net} {x y : Nat} {stx sty : NetStation} {p
     by rw [hsy]; exact h.headY, h.stampY, by rw [hsy]; exact h.lYp, h.ttoY, h.pB, Int.le_trans h.ptl htl,
     by rw [hseen, hsy]; exact ⟨Int.le_refl _, Int.le_trans h.seens.2 htl⟩⟩
 
+/-- **Token on the bus, the adopted station is polled**: while the token is incomplete it keeps it in its buffer; once it
+is complete it accepts it — the token comes from its previous station — and holds the token (`UseToken`). -/
+theorem tp1_listener {cfg : Cfg} {n : Net} {x y : Nat} {stx sty : NetStation} {p lY : Int} {M : List Nat} {B tl : Int}
+    (h : TP1 cfg n x y stx sty p lY M B tl) (hok : cfg.Ok) (now : Int) (htl : tl ≤ now) (hown : n.bus.seen.getD y 0 < now)
+    (hgy : now ≤ n.bus.seen.getD y 0 + (cfg.P : Nat)) :
+    ∃ n' inc c, n.poll y now = (n', inc, some (.ok c)) ∧ c.tx = none ∧ c.s.p = sty.s.p ∧
+      ((∃ lY', TP1 cfg n' x y stx (upSt sty c) p lY' M B now) ∨
+       (now ≤ B ∧ c.s.st = .useToken ⟨now, none⟩ false)) := by
+  have hr := hok.rate
+  have hc2 := cfg.ce2 hr
+  have hc0 := cfg.ce_pos hr 0
+  have hs := h.soloX
+  have hptl := h.ptl
+  have hpB := h.pB
+  have httoY := h.ttoY
+  obtain ⟨hon, hal, hinv, hson⟩ := h.yon
+  obtain ⟨dn, htxs0, hdn⟩ := h.split
+  have hxy : x ≠ y := Ne.symm h.yx
+  have haL : stx.s.p.address < 126 := by have := hs.inv.addr; have := hs.inv.hsa; omega
+  have haH : sty.s.p.address < 126 := by have := hinv.addr; have := hinv.hsa; omega
+  obtain ⟨tk, htk⟩ : ∃ tk, tk = tkTx x stx.s.p.address sty.s.p.address p := ⟨_, rfl⟩
+  have htxs : n.bus.txs = dn ++ [tk] := by rw [htk]; exact htxs0
+  have hrxY : sty.rx = arrived cfg [tk] (n.bus.seen.getD y 0) := by rw [htk]; exact h.rxY
+  have hpendY : sty.s.pendingBytes ≤ (arrived cfg [tk] (n.bus.seen.getD y 0)).length := by rw [htk]; exact h.pendY
+  have hheadY : cvis cfg tk (n.bus.seen.getD y 0) < 3 := by rw [htk]; exact h.headY
+  have hlen : tk.bytes.length = 3 := by rw [htk]; rfl
+  have hstart : tk.start = p := by rw [htk]; rfl
+  have hsender : tk.sender = x := by rw [htk]; rfl
+  have htel : telOf tk = .token (UInt8.ofNat sty.s.p.address) (UInt8.ofNat stx.s.p.address) := by
+    have := telOf_token tk stx.s.p.address M (by rw [h.succ, htk]; rfl)
+    rw [this]; unfold tokTel; rw [h.succ]
+  have hwire : tk.bytes = (telOf tk).wire ∧ (telOf tk).Valid ∧ 0 < tk.bytes.length := by
+    rw [htel]
+    exact ⟨by rw [htk]; rfl, trivial, by rw [hlen]; omega⟩
+  have hsn : n.bus.seen.getD y 0 ≤ now := Int.le_of_lt hown
+  have hys : n.bus.seen.getD y 0 < p + ((cfg.ce 2 : Nat) : Int) := by
+    by_cases h' : n.bus.seen.getD y 0 < p + ((cfg.ce 2 : Nat) : Int)
+    · exact h'
+    · have h' : p + ((cfg.ce 2 : Nat) : Int) ≤ n.bus.seen.getD y 0 := by omega
+      have := (cvis_spec cfg tk (n.bus.seen.getD y 0) 2 (by rw [hlen]; omega)).2 (by rw [hstart]; exact h')
+      omega
+  have hbc : n.bus.Chained n.bus.txs := by
+    unfold Bus.Chained
+    have := hs.chained
+    unfold CChained at this
+    refine this.imp ?_
+    intro o t hot
+    unfold Bus.txEnd
+    rw [byteEnd_cfg n.bus cfg hs.rate]; exact hot
+  obtain ⟨inc, hdv, hcat⟩ : ∃ inc, n.bus.deliver y now = ({ n.bus with seen := n.bus.seen.set y now }, inc) ∧
+      arrived cfg [tk] (n.bus.seen.getD y 0) ++ inc = arrived cfg [tk] now := by
+    refine ⟨_, Bus.deliver_chained n.bus (by rw [hs.rate]; exact hr) hs.corrupt y now hbc hs.live, ?_⟩
+    rw [htxs, List.map_append, List.flatten_append,
+      seg_done cfg hr n.bus hs.rate y _ now hsn dn (fun o ho => (hdn o ho).2.imp id (fun hh =>
+        ⟨hs.pos o (by rw [htxs]; exact List.mem_append_left _ ho), hh⟩)), List.nil_append]
+    exact arrived_extend cfg hr n.bus hs.rate y _ now hsn [tk] (List.pairwise_singleton _ _)
+      (fun t ht => by simp only [List.mem_singleton] at ht; subst ht; rw [hlen]; omega)
+      (fun t ht => by simp only [List.mem_singleton] at ht; subst ht; rw [hsender]; exact hxy)
+  have hphy : n.bus.transmitting y now = false := by
+    unfold Bus.transmitting
+    cases hf : n.bus.txs.reverse.find? (fun t => decide (t.sender = y)) with
+    | none => rfl
+    | some t =>
+      have hmem : t ∈ n.bus.txs := List.mem_reverse.1 (List.mem_of_find?_eq_some hf)
+      have hst : t.sender = y := by simpa using List.find?_some hf
+      rw [htxs] at hmem
+      rcases List.mem_append.1 hmem with hm | hm
+      · have := (hdn t hm).1
+        simp only [decide_eq_false_iff_not]
+        unfold Bus.txEnd
+        rw [byteEnd_cfg n.bus cfg hs.rate]
+        unfold cEnd at this
+        omega
+      · simp only [List.mem_singleton] at hm; subst hm; rw [hsender] at hst; exact absurd hst hxy
+  have hrx' : sty.rx ++ inc = arrived cfg [tk] now := by rw [hrxY]; exact hcat
+  have hA : ∀ a, arrived cfg [tk] a = tk.bytes.take (cvis cfg tk a) := by
+    intro a
+    unfold arrived
+    simp only [List.map_cons, List.map_nil, List.flatten_cons, List.flatten_nil, List.append_nil]
+  have hlt : lY < now := by rcases h.lYp with e | e <;> omega
+  have hlate : ∀ l0, sty.s.lastBusActivity = some l0 → l0 < now := by
+    intro l0 hl0; rw [h.stampY] at hl0; cases hl0; exact hlt
+  have hto : 0 < sty.s.p.tokenLostTimeout := by rcases h.lYp with e | e <;> omega
+  have hnow : now < lY + (sty.s.p.tokenLostTimeout : Nat) := by omega
+  have hV3 := cvis_le cfg tk now
+  obtain ⟨k, b', d, ret, hrec, hk, hdm, hfl, hfull, hb', hhead, hnil, hlastflag, hd0⟩ :=
+    consume cfg hr telOf [tk] now (List.pairwise_singleton _ _)
+      (fun t ht => by simp only [List.mem_singleton] at ht; subst ht; exact hwire)
+  simp only [List.length_singleton] at hk
+  obtain ⟨f1, f2, f3, f4, -⟩ := checkBA_fields sty.s now (arrived cfg [tk] now).length
+  by_cases hV : cvis cfg tk now < 3
+  · -- incomplete
+    have hk0 : k = 0 := by
+      rcases Nat.lt_or_ge k 1 with h' | h'
+      · omega
+      · have hk1 : k = 1 := by omega
+        have := hfull tk (by rw [hk1]; simp)
+        omega
+    subst hk0
+    have hd : d = [] := by simpa using hdm
+    subst hd
+    simp only [List.drop_zero] at hb'
+    subst hb'
+    have hpoll := idle_poll_partialA sty.s sty.apps now (arrived cfg [tk] now) (arrived cfg [tk] now) ret none 0 lY hson
+      h.sty_st h.stampY hlt hto (.inr hnow) hrec
+    obtain ⟨c', hc', hinv', -⟩ := pollInner_good { s := sty.s, apps := sty.apps, rx := arrived cfg [tk] now } now false hinv rfl
+    have hc'' : sty.s.poll sty.apps now false (arrived cfg [tk] now) = .ok c' := hc'
+    rw [hpoll] at hc''
+    cases hc''
+    obtain ⟨l1, hl1, hle1, hcase⟩ := checkBA_stamp sty.s now (arrived cfg [tk] now).length hlate (.inr ⟨lY, h.stampY⟩)
+    have hpoll' : sty.s.poll sty.apps now (Bus.transmitting { n.bus with seen := n.bus.seen.set y now } y now) (sty.rx ++ inc) =
+        .ok { s := checkBusActivity sty.s now (arrived cfg [tk] now).length, apps := sty.apps, rx := arrived cfg [tk] now } := by
+      rw [transmitting_seen, hphy, hrx']; exact hpoll
+    have hpe := Net.poll_eq n y now sty _ inc _ h.gy hal hon hdv hpoll'
+    obtain ⟨n', hpe', hbus, hstn⟩ : ∃ n', n.poll y now = (n', inc, some (.ok { s := checkBusActivity sty.s now (arrived cfg [tk] now).length, apps := sty.apps, rx := arrived cfg [tk] now })) ∧
+        n'.bus = { n.bus with seen := n.bus.seen.set y now } ∧
+        n'.stations = n.stations.set y (upSt sty { s := checkBusActivity sty.s now (arrived cfg [tk] now).length, apps := sty.apps, rx := arrived cfg [tk] now }) := ⟨_, hpe, rfl, rfl⟩
+    have hseen : n'.bus.seen.getD y 0 = now := by rw [hbus]; exact seen_set_self _ _ _ h.ys
+    have hsx : n'.bus.seen.getD x 0 = n.bus.seen.getD x 0 := by rw [hbus]; exact seen_set_other n.bus y x now h.yx
+    have haddr : (upSt sty { s := checkBusActivity sty.s now (arrived cfg [tk] now).length, apps := sty.apps, rx := arrived cfg [tk] now }).s.p.address = sty.s.p.address := by
+      show (checkBusActivity sty.s now _).p.address = _; rw [f2]
+    have hlenle : (arrived cfg [tk] (n.bus.seen.getD y 0)).length ≤ (arrived cfg [tk] now).length := by
+      rw [← hcat, List.length_append]; omega
+    have hl1ge : lY ≤ l1 := by
+      rcases hcase with ⟨_, e⟩ | ⟨_, e⟩
+      · omega
+      · rw [h.stampY] at e; cases e; exact Int.le_refl _
+    refine ⟨n', inc, _, hpe', rfl, f2, .inl ⟨l1, ?_⟩⟩
+    refine ⟨hs.otherPoll y now _ h.yx hbus hstn, h.stx_st, by rw [haddr]; exact h.succ,
+      by rw [hstn]; exact List.getElem?_set_self h.yl, by rw [hstn, List.length_set]; exact h.yl,
+      by rw [hbus]; simp only [List.length_set]; exact h.ys,
+      ⟨hon, hal, hinv', by show (checkBusActivity sty.s now _).online = true; rw [f4]; exact hson⟩,
+      by show (checkBusActivity sty.s now _).st = _; rw [f1]; exact h.sty_st,
+      by show (checkBusActivity sty.s now _).ring.ps = _; rw [f3]; exact h.yps,
+      by rw [haddr]; exact h.ne, h.yx, ?_, ?_, ?_, ?_, hl1, .inr (by rw [hseen]; exact hle1), ?_, h.pB,
+      Int.le_trans h.ptl htl, by rw [hseen, hsx]; exact ⟨Int.le_trans h.seens.1 htl, Int.le_refl _⟩⟩
+    · refine ⟨dn, by rw [haddr, hbus]; exact htxs0, fun o ho => ⟨(hdn o ho).1, ?_⟩⟩
+      rw [hseen]
+      exact (hdn o ho).2.imp id (fun hh => by omega)
+    · rw [haddr, hseen, ← htk]; rfl
+    · rw [haddr, hseen, ← htk]
+      show (checkBusActivity sty.s now _).pendingBytes ≤ _
+      unfold checkBusActivity
+      split
+      · exact Nat.le_refl _
+      · omega
+    · rw [haddr, hseen, ← htk]; exact hV
+    · show _ < l1 + (((checkBusActivity sty.s now _).p.tokenLostTimeout : Nat) : Int)
+      rw [f2]; omega
+  · -- complete: the token is accepted
+    have hk1 : k = 1 := by
+      rcases Nat.lt_or_ge k 1 with h' | h'
+      · have hk0 : k = 0 := by omega
+        subst hk0
+        have := (hhead tk [] (by simp)).1
+        omega
+      · omega
+    subst hk1
+    have hb0 : b' = [] := hnil (by simp)
+    subst hb0
+    simp only [List.take_succ_cons, List.take_zero, List.map_cons, List.map_nil] at hdm
+    obtain ⟨t0, fl0, hd1⟩ : ∃ t0 fl0, d = [(t0, fl0)] := by
+      cases d with
+      | nil => simp at hdm
+      | cons a rest =>
+        cases rest with
+        | nil => exact ⟨a.1, a.2, rfl⟩
+        | cons b r2 => simp at hdm
+    subst hd1
+    simp only [List.map_cons, List.map_nil, List.cons.injEq, and_true] at hdm
+    have hfl1 : fl0 = true := by
+      obtain ⟨pre, t1, e⟩ := hlastflag (by simp) rfl
+      cases pre with
+      | nil => simp only [List.nil_append, List.cons.injEq, Prod.mk.injEq, and_true] at e; exact e.2
+      | cons a r2 =>
+        have := congrArg List.length e
+        simp at this
+    subst hfl1
+    rw [hdm, htel] at hrec
+    have hpoll := idle_poll_accepts sty.s sty.apps now (arrived cfg [tk] now) [] none 0 (UInt8.ofNat sty.s.p.address)
+      (UInt8.ofNat stx.s.p.address) ret hson h.sty_st hlate hto (.inr ⟨lY, h.stampY, hnow⟩) hrec (u8n _ (by omega))
+      (by rw [u8n _ (by omega)]; exact Ne.symm h.ne) (.inl (by rw [u8n _ (by omega)]; exact h.yps.symm))
+    have hpoll' : sty.s.poll sty.apps now (Bus.transmitting { n.bus with seen := n.bus.seen.set y now } y now) (sty.rx ++ inc) =
+        sty.s.poll sty.apps now false (arrived cfg [tk] now) := by
+      rw [transmitting_seen, hphy, hrx']
+    rw [hpoll] at hpoll'
+    have hpe := Net.poll_eq n y now sty _ inc _ h.gy hal hon hdv hpoll'
+    exact ⟨_, inc, _, hpe, rfl, rfl, .inr ⟨by omega, rfl⟩⟩
+
 end PV
